@@ -485,16 +485,9 @@ func runExhaust(c *Ctx, r *Reporter, spec dispatcherSpec) {
 		return
 	}
 	info := pkg.TypesInfo
-	// the type switch whose subject is a parameter of interface type parser.Node
-	var ts *ast.TypeSwitchStmt
-	for _, cand := range typeSwitches(info, fn.Decl.Body, func(subj ast.Expr) bool {
-		t := info.TypeOf(subj)
-		return t != nil && types.Identical(t.Underlying(), iface)
-	}) {
-		if ts == nil || len(cand.Body.List) > len(ts.Body.List) {
-			ts = cand
-		}
-	}
+	// the type switch whose subject is a parameter of interface type parser.Node (in the dispatcher, or in the function
+	// it hands the node to)
+	fn, ts := nodeDispatcher(pkg, fn, iface)
 	if ts == nil {
 		r.Undecided("%s has no type switch over parser.Node", spec.fn)
 		return
